@@ -1,5 +1,6 @@
 import PsycheModel.Props.C07Binder
 import PsycheModel.Lemmas.DeclRoundTrip
+import PsycheModel.Lemmas.DeclFuel
 /-!
 # C07 (continued) — from the TEXT of a declarator to its type: the declarator parser inverts the printer
 
@@ -23,19 +24,34 @@ theorem parse_print (form : Form) (d : Decl) (k : List Tok) (hw : wf form d = tr
   exact ⟨f0, fun f hf => parseD_le hf h0⟩
 
 /-- … and (soundness) whatever the fuel, an answer on printed tokens is that answer: running out of fuel is the only other
-outcome.  (The driver runs with fuel `2 * length + 2`; that this suffices is part of what the correspondence run checks:
-the real parser has no fuel.) -/
+outcome.  (The driver runs with fuel `2 * length + 2`; `parseDeclarator_fuel_free` below proves that this suffices for EVERY
+token string - the real parser has no fuel.) -/
 theorem parse_print_sound (form : Form) (d : Decl) (k : List Tok) (hw : wf form d = true) (hk : Fol k = true) (hs : Stop k = true)
     (f : Nat) (x : Decl × List Tok) (h : parseD form f (pr d k) = some x) : x = (d, k) := by
   obtain ⟨f0, h0⟩ := parse_print form d k hw hk hs
   exact parseD_fuel_irrelevant h (h0 f0 (Nat.le_refl _))
 
+/-- **The fixed fuel of `parseDeclarator` never changes an answer** (`bnd`: an answer obtained with any fuel is obtained
+with `2 * consumed + 2`): the model is the fuel-free recursive-descent parser, and a decision procedure. -/
+theorem parseDeclarator_fuel_free (ts : List Tok) (f : Nat) (x : Decl × List Tok) (h : parseD .concrete f ts = some x) :
+    parseDeclarator ts = some x := by
+  obtain ⟨d, r⟩ := x
+  exact parseD_concrete_fuel_bound h
+
+theorem parseD_fuel_free (form : Form) (ts : List Tok) (f : Nat) (x : Decl × List Tok) (h : parseD form f ts = some x) :
+    parseD form (2 * ts.length + 3) ts = some x := by
+  obtain ⟨d, r⟩ := x
+  exact parseD_fuel_bound h
+
+/-- every answer leaves a rest no longer than its input (the parser only moves forward) -/
+theorem parse_consumes (form : Form) (ts : List Tok) (f : Nat) (d : Decl) (r : List Tok) (h : parseD form f ts = some (d, r)) :
+    r.length ≤ ts.length := parseD_consumes h
+
+/-- … so `parseDeclarator` itself, with its fixed fuel, inverts the printer on every well-formed concrete declarator. -/
 theorem parseDeclarator_print (d : Decl) (hw : wf .concrete d = true) :
-    parseDeclarator (pr d [.stop]) = none ∨ parseDeclarator (pr d [.stop]) = some (d, [.stop]) := by
-  unfold parseDeclarator
-  cases h : parseD .concrete (2 * (pr d [.stop]).length + 2) (pr d [.stop]) with
-  | none => exact .inl rfl
-  | some x => exact .inr (by rw [parse_print_sound .concrete d [.stop] hw rfl rfl _ x h])
+    parseDeclarator (pr d [.stop]) = some (d, [.stop]) := by
+  obtain ⟨f0, h0⟩ := parse_print .concrete d [.stop] hw rfl rfl
+  exact parseDeclarator_fuel_free _ f0 _ (h0 f0 (Nat.le_refl _))
 
 /-- **Whatever the parser returns is a declarator of C** (soundness, for EVERY token string, not only printed ones): a result
 of `parseDeclarator` in either form is well-formed — its leaf is an identifier (concrete) or absent (abstract), a pointer
@@ -88,6 +104,15 @@ theorem text_to_type (ctx : Ctx) (T : Ty) (hT : PlainBase T) (below : List Ty) (
   obtain ⟨f0, h0⟩ := parse_print .concrete (build ds (.ident n)) [.stop] (wf_build n ds hds) rfl rfl
   obtain ⟨nested, hb⟩ := bind_build ctx T hT below ds n
   exact ⟨f0, nested, fun f hf => by rw [h0 f hf]; exact hb⟩
+
+/-- the same with the fixed fuel of `parseDeclarator`: no fuel in the statement -/
+theorem text_to_type_fixed_fuel (ctx : Ctx) (T : Ty) (hT : PlainBase T) (below : List Ty) (ds : List Deriv) (n : String)
+    (hds : ∀ x ∈ ds, derivOK x = true) :
+    ∃ nested,
+      (parseDeclarator (pr (build ds (.ident n)) [.stop])).bind (fun p => bindDeclaration ctx T [p.1] below) =
+        some (below, ⟨ctx.kindOf (ctx.adj (applyDerivs ds T)), n, ctx.adj (applyDerivs ds T)⟩ :: nested) := by
+  obtain ⟨nested, hb⟩ := bind_build ctx T hT below ds n
+  exact ⟨nested, by rw [parseDeclarator_print _ (wf_build n ds hds)]; exact hb⟩
 
 /-- non-vacuity: `(*fp[3])(int a, char *, ...)` printed, parsed and bound in file scope -/
 example :
